@@ -9,14 +9,17 @@ META = dict(
          "bytify/unbytify, hexify/unhexify, hexize/unhexize, binize/unbinize and signExtend are enumerated completely over small domains "
          "against int.to_bytes / bytes.hex / format().",
     note="Complete only up to the stated widths (full value product for 16-bit formats is ~3e9 cases); the 'formal proof' in the quantifier is another "
-         "technique and is not attempted. One-bit fields pack truthiness (documented), so out-of-range values are only fed to one-bit fields "
-         "where masking and truthiness agree.",
+         "technique and is not attempted. One-bit fields pack the truthiness of their value (packify docstring): they are fed 0/1, bools, 3, truthy values with "
+         "a clear low bit (2, 4, 0x80, 256) and non-int truthy/falsy objects, and must pack 1/0 accordingly in packify and packifyInto alike.",
 )
 import itertools
 from mc import core
 
 FULL_W = 10 if core.TIER == "quick" else 12     # every value tuple
 EDGE_W = 12 if core.TIER == "quick" else 16     # boundary-value family only
+EVEN_TRUTHY = (2, 4, 0x80, 256)                  # truthy values whose low bit is clear
+OBJ_TRUTHY = (1.0, "x", [0])                     # non-int truthy / falsy values for one-bit fields
+OBJ_FALSY = (0.0, None, "", [])
 KEY_W = 10                                       # per-case distinct keys up to this width (memory bound)
 HANG_S = 120                                     # per format / per scalar job; normal cost is well under 10 s
 
@@ -156,17 +159,34 @@ def check_format(by, p, widths, full, cur):
         if not ok or rgot != bytearray(reversed(exp)):
             bad("packify|reverse-not-mirror", vals, "packify(reverse=True)=%r, mirror of big-endian is %r" % (rgot, bytearray(reversed(exp))),
                 fn="packify", reverse=True, got=rgot, expected=bytearray(reversed(exp)))
-        # ---- out-of-range variant: high garbage bits above every field (one-bit fields: only where truthiness == masking)
+        # ---- out-of-range variant: garbage bits above every field of width >= 2 (masked); one-bit fields pack the TRUTHINESS of
+        #      the value (docstring: "nonzero is True and packs as a 1"): python bools, truthy values whose low bit is clear, and
+        #      non-int truthy / falsy objects.  packify and packifyInto must agree on all of them.
         if nf:
+            onebit = 1 in widths
             hi = tuple((v | (5 << w)) if w > 1 else (3 if v else 0) for w, v in zip(widths, vals))
-            bo = tuple(bool(v) if w == 1 else v for w, v in zip(widths, vals))
-            for alt, tag in ((hi, "out-of-range"), (bo, "bool-for-one-bit")):
-                if alt == vals and tag == "out-of-range":
+            alts = [(hi, "out-of-range")]
+            if onebit:
+                alts.append((tuple(bool(v) if w == 1 else v for w, v in zip(widths, vals)), "bool-for-one-bit"))
+                alts.append((tuple((EVEN_TRUTHY[i % 4] if v else 0) if w == 1 else v for i, (w, v) in enumerate(zip(widths, vals))),
+                             "even-truthy-for-one-bit"))
+                alts.append((tuple((OBJ_TRUTHY[i % 3] if v else OBJ_FALSY[i % 4]) if w == 1 else v for i, (w, v) in enumerate(zip(widths, vals))),
+                             "object-truthiness-for-one-bit"))
+            for alt, tag in alts:
+                if tag == "out-of-range" and alt == vals:
                     continue
                 ok, g2 = call(by.packify, fmt, alt)
                 if not ok or g2 != exp:
-                    bad("packify|%s-not-masked" % tag, alt, "packify(%r,%r)=%r expected the masked bytes %r" % (str(fmt), list(alt), g2, exp),
+                    bad("packify|%s-not-%s" % (tag, "masked" if tag == "out-of-range" else "packed-as-truthiness"), alt,
+                        "packify(%r,%r)=%r expected %r (%s)" % (str(fmt), list(alt), g2, exp,
+                                                               "fields masked to their width" if tag == "out-of-range" else "one-bit fields pack 1 for a truthy and 0 for a falsy value"),
                         fn="packify", got=g2, expected=exp)
+                if tag in ("even-truthy-for-one-bit", "object-truthiness-for-one-bit"):
+                    buf = bytearray()
+                    ok, n2 = call(by.packifyInto, buf, fmt, alt)
+                    if not ok or buf != exp or n2 != size:
+                        bad("packifyInto|%s-not-packed-as-truthiness" % tag, alt, "packifyInto(bytearray(), %r, %r) -> %r buffer %r expected %d %r"
+                            % (str(fmt), list(alt), n2, buf, size, exp), fn="packifyInto", got=[n2, buf], expected=[size, exp])
         # ---- explicit larger size: right zero padded
         ok, g3 = call(by.packify, fmt, vals, size=size + 1)
         e3 = ref_pack(widths, vals, size=size + 1)
@@ -512,8 +532,8 @@ def run():
     ck.merge(core.pmap(work_scalars, jobs))
     ck.assumptions = [
         "reference = '0'/'1' string concatenation for pack/unpack, int.to_bytes/from_bytes, bytes.hex/fromhex, format(n,'b'); self-checked on the docstring example",
-        "one-bit fields pack the truthiness of the value (documented in packify); out-of-range values are fed to one-bit fields only where "
-        "truthiness and masking agree (0 and 3), wider fields get garbage above the field width and must be masked",
+        "one-bit fields pack the truthiness of the value ('nonzero is True and packs as a 1', packify/packifyInto docstrings) - not its low bit: 2, 4, 0x80, 256, "
+        "1.0, 'x', [0] pack 1 and 0, 0.0, None, '', [] pack 0; wider fields get garbage above the field width and must be masked",
         "the padding field returned by unpackify is compared by value only (its type under boolean=True is not specified by the statement)",
         "unhexify/unhexize: odd-length text is read with a leading '0' and upper case is accepted (docstring); text -> bytes -> text therefore "
         "returns the lower-case even-length form; non-hex characters are outside the domain and not fed",
